@@ -216,6 +216,7 @@ class CaseOracle:
                         out.append(V("C04", "wrong_constructor", {"component": c, "type": t, "got": origin, "want": want, "req": req_brief(req)},
                                      relation=self._relation(scope, origin), pattern=self._override_pattern()))
             elif e["k"] in ("construct", "fail") and c in self.ctors:
+                users = self._root_users(evs, e) if e["k"] == "construct" else None
                 for (t, mode, iid, root, origin) in e.get("in", []):
                     if origin == "?":
                         continue
@@ -223,6 +224,20 @@ class CaseOracle:
                     ok = self._pipeline_visible(hid, exp, t)
                     if ok is not None and origin not in ok:
                         out.append(V("C04", "constructor_input_from_invisible_registration", {"ctor": c, "type": t, "got": origin, "visible": sorted(ok), "req": req_brief(req)}))
+                    elif users:
+                        # ... and, more precisely, the registration that the blueprint designates "at that route": the value was built
+                        # for the components that (transitively) consume it in this request, so the input must be what one of *them*
+                        # resolves the type to. (A value shared by components of different blueprints may legitimately be resolved
+                        # in either scope; singletons are built once for every scope that sees them.)
+                        want = set(m.resolve(m.reg[u][0], t) for u in users)
+                        want.discard(None)
+                        if want and origin not in want and self.ctors[c]["lc"] != "singleton":
+                            self.stats["ctor_inputs_judged_by_users"] = self.stats.get("ctor_inputs_judged_by_users", 0) + 1
+                            out.append(V("C04", "constructor_input_not_designated_for_its_users",
+                                         {"ctor": c, "type": t, "got": origin, "want": sorted(want), "users": sorted(users), "req": req_brief(req)},
+                                         relation=self._relation(m.reg[sorted(users)[0]][0], origin), pattern=self._override_pattern()))
+                        elif want:
+                            self.stats["ctor_inputs_judged_by_users"] = self.stats.get("ctor_inputs_judged_by_users", 0) + 1
 
         if req.get("sub") == "host":
             # host probes: the routing verdicts on them are verdicts on the domain guard semantics (C20)
@@ -255,6 +270,36 @@ class CaseOracle:
                     return "descendant"
                 return "sibling"
         return "unregistered"
+
+    def _root_users(self, evs, construct_ev):
+        """Registered components that consume, directly or through other constructed values, the instance built by
+        `construct_ev` in this request (None when that cannot be told: no consumer logged, or a consumer that the model has no
+        registration scope for)."""
+        m = self.m
+        frontier, seen, users = [construct_ev.get("id")], set(), set()
+        if frontier[0] is None:
+            return None
+        while frontier:
+            x = frontier.pop()
+            if x in seen:
+                continue
+            seen.add(x)
+            for e in evs:
+                if not any(inp[3] == x for inp in e.get("in", [])):
+                    continue
+                if e["k"] == "construct" and e.get("c") in self.ctors:
+                    if e.get("id") is not None:
+                        frontier.append(e["id"])
+                elif e["k"] in ("enter", "fail", "early") or e.get("c") is not None:
+                    c = e.get("c")
+                    if c in self.ctors:
+                        continue  # a failing constructor consumes its inputs and has no users of its own
+                    if c not in m.reg or c not in self.comp_ids:
+                        # error handlers and observers are nodes of the call graph of the component that failed: their inputs
+                        # resolve in that component's scope, which the log does not name
+                        return None
+                    users.add(c)
+        return users or None
 
     def _pipeline_visible(self, hid, exp, t):
         m = self.m
